@@ -5,3 +5,4 @@ import Op2Model.Path
 import Op2Model.Bits
 import Op2Model.Tile
 import Op2Model.Stream
+import Op2Model.Prt
